@@ -385,6 +385,14 @@ def w_devices_agree(ctx, rng, i):
     ctx.case(("dev", fs, round(math.log10(R_L), 1), i), sample=dict(fs=fs, r=r_, R_L=R_L, T=Tk, P=Pw, measured_over_model=s2 / want) if i < 2 else None)
 
 
+def FORM_TWINS():
+    import opticomlib.ook as ok
+    import opticomlib.ppm as pp
+    import opticomlib.utils as ut
+    return [(ok, ["theory_BER", "THRESHOLD_EST"]), (pp, ["theory_BER", "THRESHOLD_EST"]),
+            (ut, ["theory_BER", "average_voltages", "noise_variances", "p_ase", "optimum_threshold"])]
+
+
 WORKLOADS = [
     Workload("ook", w_ook, 500, 50000),
     Workload("ppm", w_ppm, 400, 40000),
